@@ -334,7 +334,7 @@ def tables_rule(rep: Report, prog: Program, resolver: Resolver, tables: Tables) 
     # from_superscript uses DIGITS and int
     fs = prog.func("formatting.from_superscript")
     txt = ast.unparse(fs.node)
-    rep.check("R13.4", "from_superscript", ("DIGITS[" in txt or "DIGITS.__getitem__" in txt or "DIGITS.get(" in txt) and "int(" in txt, "from_superscript does not decode through DIGITS into int",
+    rep.check("R13.4", "from_superscript", ("DIGITS[" in txt or "DIGITS.__getitem__" in txt) and "int(" in txt, "from_superscript does not decode through DIGITS into int",
               fs.where())
     # join separator is one of _MULTIPLY's alternatives
     mul = tables.terminals.get("_MULTIPLY")
